@@ -123,7 +123,7 @@ def coq_case(case):
         if "opts" in case:
             return "%s %s %s %s" % ("run_S" if case["opts"].get("store") else "run_o", E.coq_opts(case["opts"]),
                                     E.coq_mgraph(E.from_nx(gh[0])), E.coq_mgraph(E.from_nx(gh[1])))
-        return "run %s %s" % (E.coq_mgraph(E.from_nx(gh[0])), E.coq_mgraph(E.from_nx(gh[1])))
+        return "C01_Model.run %s %s" % (E.coq_mgraph(E.from_nx(gh[0])), E.coq_mgraph(E.from_nx(gh[1])))
     except (KeyError, TypeError, ValueError):
         return None
 
@@ -689,6 +689,12 @@ def gen_ih(rng, count):
         elif z < 0.3:
             nodes.append([nxt, E.mol_node(nxt, "H", 0, 1)])    # isolated proton
             hs.append(nxt)
+        seen, uniq = set(), []
+        for e in edges:                                         # one entry per unordered pair (networkx would merge them)
+            if frozenset(e[:2]) not in seen and e[0] != e[1]:
+                seen.add(frozenset(e[:2]))
+                uniq.append(e)
+        edges = uniq
         rng.shuffle(nodes)
         rng.shuffle(edges)
         amaps = [a["atom_map"] for n, a in nodes if n in set(hs)]
